@@ -83,7 +83,12 @@ def make_loss(kind):
             "likelihood": LikelihoodLoss}[kind]()
 
 
-MODELS = {"ar1_model": ar1_model, "nan_model": nan_model, "mut_model": mut_model}
+def small_model(theta, N, seed):  # noqa: N803
+    """the same process in small units (losses of the order of 1e-2 and below: rounding a loss to two decimals matters)"""
+    return 0.01 * ar1_model(theta, N, seed)
+
+
+MODELS = {"ar1_model": ar1_model, "nan_model": nan_model, "mut_model": mut_model, "small_model": small_model}
 
 
 def build(spec, folder=None, ctor_seed_shift=0, n_jobs=1, verbose=False):
@@ -95,7 +100,7 @@ def build(spec, folder=None, ctor_seed_shift=0, n_jobs=1, verbose=False):
     npar = spec["nparams"]
     bounds = spec.get("bounds") or [[-0.9] + [0.0] * (npar - 1), [0.9] + [1.0] * (npar - 1)]
     prec = [0.01] * npar
-    real = ar1_model([0.5] + [0.3] * (npar - 1), 24, 12345)
+    real = MODELS["small_model" if spec.get("model") == "small_model" else "ar1_model"]([0.5] + [0.3] * (npar - 1), 24, 12345)
     kw = {}
     if spec.get("rl"):
         from black_it.schedulers.rl.agents.epsilon_greedy import MABEpsilonGreedy
@@ -104,7 +109,7 @@ def build(spec, folder=None, ctor_seed_shift=0, n_jobs=1, verbose=False):
 
         has_h = any(k == "halton" for k, _ in spec["kinds"])
         n_act = len(samplers) + (0 if has_h else 1)
-        agent = MABEpsilonGreedy(n_actions=n_act, alpha=0.1, eps=0.2, initial_values=1.0, random_state=3 + ctor_seed_shift)
+        agent = MABEpsilonGreedy(n_actions=n_act, alpha=0.1, eps=spec.get("eps", 0.2), initial_values=1.0, random_state=(3 + ctor_seed_shift) if ctor_seed_shift is not None else None)
         kw["scheduler"] = RLScheduler(samplers, agent, MABCalibrationEnv(n_act))
     else:
         kw["samplers"] = samplers
